@@ -67,6 +67,22 @@ pub fn c10(tier: &str, seed: u64) -> Vec<Case> {
             let mut c = Case::new(format!("parse {}", text::hex(&enc)), out.clone()).tag(&tag).tag("decode-compressed");
             if out != format!("ok {}", two) { c = c.fail("layout-read-compressed", format!("{}: the RFC encoding with compressed names does not give the field values back", KIND_NAMES[kind])); }
             v.push(c);
+            // (4) the compressing writer: RDATA of types outside RFC 1035/1183's compressible set must still be
+            // the RFC encoding byte for byte, even when an earlier record offers suffixes to point to
+            let first = ResourceRecord::new(g.name(), CLASS::IN, 1, RData::NS(NS(g.name())));
+            let mut p2 = Packet::new_reply(7);
+            p2.answers.push(first);
+            p2.answers.push(ResourceRecord::new(Name::new_unchecked("t"), CLASS::IN, 5, rd.clone()));
+            if let (Ok(cb), true) = (p2.build_bytes_vec_compressed(), !lib.is_empty()) {
+                let code = u16::from(rd.type_code());
+                let compressible = matches!(code, 2 | 3 | 4 | 5 | 7 | 8 | 9 | 12 | 6 | 14 | 15 | 17 | 18 | 21 | 23);
+                if let Some(w) = walker::walk(&cb) {
+                    let e = &w.sections[0][1];
+                    let mut c = Case::oracle_only().tag("compressed-writer-rdata");
+                    if !compressible && cb[e.rd_start..e.next()] != lib[..] { c = c.fail("layout-written-compressed", format!("{}: the compressing writer does not emit the RFC encoding of the RDATA", KIND_NAMES[kind])); }
+                    v.push(c);
+                }
+            }
         }
     }
     // structural rules: encodings that break them must be rejected
